@@ -878,6 +878,23 @@ class C08(Property):
             'research case with a non-empty set is followed by a twin whose oracle skips exactly the recorded set-path '
             'defect (so its correspondence counts); whether research queries / reports the root itself is probed, not '
             'demanded. '
+            'Round 5, FIRST in the stream: (a) every public entry point in every argument form it accepts - remap with each '
+            'value of trace (True, False, each event name, tuples / lists / a set of names, (), [], an unknown name; stdout '
+            'captured and ignored) x 8 programs x 8 shapes, visit positional / by keyword / default_visit passed explicitly, '
+            'enter=default_enter + exit=default_exit passed explicitly, reraise_visit=True passed explicitly, custom enter x '
+            'exit callbacks with tracing on; research with query positional / by keyword / omitted, reraise positional / by '
+            'keyword / left to its default, enter=default_enter explicit; get_path on every reported path with the path as '
+            'tuple / list / dotted string (where every segment survives the round trip through text) and with defaults '
+            'None, 0, empty string, False, (), the root itself and a fresh object, by keyword and positionally. With a form the FIRST '
+            'of the two calls is the plain call and the outcome of the second must be the same (oracle clause '
+            'keyword_dependent). 10% of the random graphs get a random form. (b) `pre`: a history of earlier calls before '
+            'the judged one (remap on a scalar; a visit / enter / exit / query that raises half way through the SAME object; '
+            'another instance kept alive / dropped at once; tracing on; research; failing get_path calls; calls rejected for '
+            'their arguments), each alone and all together, 3% of the random graphs. (c) between the two calls the value the '
+            'first call returned is spoiled by the caller (every fresh mutable container emptied, research\'s list cleared). '
+            '(f) leaves and dict keys with an unusual __eq__ / __hash__ / __bool__ / __len__ (== to everything, != to '
+            'itself, falsy with len 0) under every named program. (g) enter callbacks that hand out TEMPORARY shallow copies '
+            'of the items (list / one-shot generator): only remap\'s own stack keeps them alive. '
             'Non-trivial = container root with at least one nested container and no harness skip; '
             'distinct = distinct (graph, program, mode).')
     ASSUMPTIONS = [
@@ -898,6 +915,13 @@ class C08(Property):
         'set iteration order is taken from the real set object (passed to the model as the item order); rebuilt '
         'sets are compared as sets',
         'identity of empty tuples / frozensets is not observed (CPython shares the empty tuple)',
+        'the argument form of a call (positional / keyword / explicitly passed defaults), remap\'s trace keyword and the '
+        'history of earlier calls do not occur in the model (a pure function of root and callbacks): the implementation is '
+        'held to that on every case that carries `form` / `pre` (the text remap prints when tracing is not judged); the '
+        'dotted-string form of a path is used only where get_path documents it (str keys without a dot in dicts, indices '
+        'into lists / tuples)',
+        'the three objects with an unusual __eq__ / __bool__ / __len__ are, for the model, atoms equal to themselves only and '
+        'truthy: the table-defined programs never ask for their truth value nor compare them with ==',
     ]
     CORRESPONDENCE_NAME = 'C08.Driver (remap/research/get_path models, heap + tree + recursion) vs boltons.iterutils'
 
